@@ -49,7 +49,7 @@ func injectViolation(t *rapid.T, keys []string) ([]string, string, bool) {
 }
 
 func TestC08(t *testing.T) {
-	runProp(t, "C08", checkC08, func(t *rapid.T) *Case {
+	runProp(t, "C08", liveCheck(checkC08), func(t *rapid.T) *Case {
 		c := &Case{}
 		fams := []famWeight{{"K1", 30}, {"K2", 15}, {"K3", 10}, {"K4", 10}, {"K5", 15}, {"K6", 5}, {"Krand", 5}}
 		keys, fam := genKeysFam(t, fams, sizeCap{small: 200, big: 10000, huge: 10000})
@@ -85,10 +85,11 @@ func TestC08(t *testing.T) {
 		if c.HasVals {
 			c.Vals, c.VMode = genVals(t, len(keys), c.Enc, false)
 		}
+		genEarlier(t, c)
 		return c
 	})
 }
-func TestReplayC08(t *testing.T) { runReplay(t, "C08", checkC08) }
+func TestReplayC08(t *testing.T) { runReplay(t, "C08", liveCheck(checkC08)) }
 
 // TestC08Ladder enumerates single-branch run lengths around every interesting
 // boundary, at four placements, in every effective mode, with and without values.
